@@ -153,6 +153,8 @@ def run(ctx: Ctx) -> Result:
         srcs_old = [f'NOP{code} d{n}' for n in (0, 1, 3, 127)] + [f'nop{code} x{n:02x}' for n in (0, 3, 0x80, 0xff)] + [f'NOP{code} d2', f'NOP{code} d2']
         base = {'repo': REPO, 'code': code, 'name': name, 'aliases': [f'FK{code}', f'OP_FK{code}'], 'auth': scripts}
         reqs.append(({**base, 'kind': None, 'compile': srcs_old, 'decompile': [bytes([code, 3]).hex()]}, None))
+        # an install attempt that is refused (name without the OP_ prefix) must leave the byte an ordinary NOP
+        reqs.append(({**base, 'kind': None, 'rejected_installs': [f'FORK_{code}', f'fork{code}'], 'compile': srcs_old, 'decompile': [bytes([code, 3]).hex()]}, 'rejected-install'))
         for kind in (FORK_KINDS if ctx.tier == 'thorough' else FORK_KINDS[:4] + [rng.choice(FORK_KINDS[4:])]):
             reqs.append(({**base, 'kind': kind, 'compile': srcs_new, 'decompile': [bytes([code, 3]).hex()]}, kind))
     with ThreadPoolExecutor(12) as ex:
@@ -165,7 +167,19 @@ def run(ctx: Ctx) -> Result:
             base_by_code[req['code']] = ans
     fork_true = 0
     for (req, kind), ans in zip(reqs, answers):
-        if kind is None or 'error' in ans or req['code'] not in base_by_code: continue
+        if kind != 'rejected-install' or 'error' in ans or req['code'] not in base_by_code: continue
+        old = base_by_code[req['code']]
+        res.note_case(('rejected-install', req['code']))
+        if any(r == 'accepted' for r in ans.get('rejected', [])):
+            viol({'what': 'install with a name that lacks the OP_ prefix', 'code': req['code'], 'names': req['rejected_installs']}, 'refused', str(ans.get('rejected')))
+        for field in ('auth', 'compile', 'decompile'):
+            if ans[field] != old[field]:
+                k = next(i for i, (a, b) in enumerate(zip(ans[field], old[field])) if a != b)
+                viol({'what': f'after a *refused* install the byte is no longer an ordinary NOP ({field})', 'code': req['code'], 'names': req['rejected_installs'],
+                      'item': (req[field][k] if field != 'auth' else req['auth'][k])}, str(old[field][k])[:200], str(ans[field][k])[:200])
+                break
+    for (req, kind), ans in zip(reqs, answers):
+        if kind is None or kind == 'rejected-install' or 'error' in ans or req['code'] not in base_by_code: continue
         old = base_by_code[req['code']]
         for scripts, v_new, v_old in zip(req['auth'], ans['auth'], old['auth']):
             res.note_case(('fork', req['code'], kind, tuple(scripts)))
